@@ -29,7 +29,7 @@ ASSUMPTIONS = [
     "differing dimension order without align: an exception of any type or a label-wise correct result are both accepted (statement: 'reordered by name or refused')",
     "order of aligned (outer-join) secondary labels is not asserted unless sort=True",
 ]
-MANDATORY = ["dtype-checked:i", "dtype-checked:f", "stack", "concatenate", "secondary:permuted", "secondary:differs", "secondary:single-label-differs", "dimorder:differs", "square",
+MANDATORY = ["inputs:joined-before-under-other-labels", "dtype-checked:i", "dtype-checked:f", "stack", "concatenate", "secondary:permuted", "secondary:differs", "secondary:single-label-differs", "dimorder:differs", "square",
              "align:True", "align:True+sort", "input:dict", "keys:str", "expected-ValueError", "concat:axis-not-first"]
 
 
@@ -75,8 +75,14 @@ def join_case(draw):
             elif k == 0 or aligned_inputs:
                 labs.append(list(bl))
             else:
-                choice = draw(st.sampled_from(["equal", "permuted", "subset", "overlapping", "disjoint", "interior", "interior", "same-size-other", "same-size-other"]))
-                if choice == "same-size-other":
+                choice = draw(st.sampled_from(["equal", "permuted", "subset", "overlapping", "disjoint", "interior", "interior", "same-size-other", "same-size-other"] +
+                                              (["near-miss", "near-miss"] if kind == "f" else [])))
+                if choice == "near-miss":
+                    # float labels that differ from the first input's in the sixth significant digit only: other labels all the same
+                    j = draw(st.integers(0, len(bl) - 1))
+                    l = list(bl)
+                    l[j] = l[j] * (1 + 3e-6) if l[j] else 3e-9
+                elif choice == "same-size-other":
                     # same length, other labels: shape-compatible, so only a label check can refuse it
                     l = [x + "_" if kind == "s" else x + 100 for x in bl]
                     if draw(st.booleans()):
@@ -94,7 +100,7 @@ def join_case(draw):
         keys_kind = "str"
     align = draw(st.sampled_from([False, False, True]))
     return {"func": func, "specs": specs, "cdim": cdim, "caxis_form": draw(st.sampled_from(["name", "pos"])), "keys": keys_kind,
-            "container": container, "align": align, "sort": draw(st.booleans()) if align else False, "newaxis": "stk"}
+            "container": container, "align": align, "sort": draw(st.booleans()) if align else False, "newaxis": "stk", "rehearse": draw(st.integers(0, 3)) == 0}
 
 
 def strategy(tier):
@@ -112,6 +118,7 @@ def enumerate_cases(tier):
     combos = [(tab["base"], ly) for kind, tab in kinds.items() for rel, ly in tab.items() if rel != "base"]
     # sorted axes that touch in exactly one label; a single (falsy) label next to longer axes
     combos += [([0, 1, 2], [2, 3, 4]), ([2, 3, 4], [0, 1, 2]), ([4, 3, 2], [2, 1, 0]), (["a", "b", "c"], ["c", "d", "e"]), ([0.5, 1.5], [1.5, 2.5, 3.5]), ([1, 2], [2]), ([2], [1, 2]),
+               ([0.5, 1.5, 2.5], [0.5, 1.5000045, 2.5]), ([300.0, 301.0], [300.0006, 301.0]), ([2000.01, 2000.02], [2000.01, 2000.03]),
                ([3, 1, 2], [0]), ([1, 2, 3], [0]), ([0], [1, 2, 3]), ([1.5, 2.5], [0.0]), (["c", "a"], [""]), ([""], ["c", "a"]), ([7], [0]), ([0], [7])]
     for base_y, ly in combos:
         for _ in (0,):
@@ -161,7 +168,21 @@ def _secondary_status(specs, skip=None):
 def run_case(case):
     da = core.env.import_dimarray()
     specs, func, align, sort = case["specs"], case["func"], case["align"], case["sort"]
-    arrays = [core.build(s) for s in specs]
+    if case.get("rehearse"):
+        # the SAME objects were joined before, under other labels (same kinds, reverse order) and other values, then relabelled and
+        # overwritten in place: whatever that first join left on them or on their axes must not matter now
+        arrays = [core.build_initial(s) for s in specs]
+        for f in ((lambda: da.stack(list(arrays), axis="stk_", align=True)), (lambda: da.stack(list(arrays), axis="stk_", align=True, sort=True)),
+                  (lambda: da.concatenate(list(arrays), axis=case["cdim"] or specs[0]["dims"][0], align=True) if specs[0]["dims"] else None)):
+            try:
+                with np.errstate(all="ignore"):
+                    f()
+            except Exception:
+                pass
+        for a_, s_ in zip(arrays, specs):
+            core.finalise(a_, s_)
+    else:
+        arrays = [core.build(s) for s in specs]
     snaps = [core.snapshot(a) for a in arrays]
     models = [core.model_of_spec(s) for s in specs]
     keys = _keys(case)
@@ -336,4 +357,6 @@ def run_case(case):
     check(len(members) == len(arrays) and all(x is y for x, y in zip(members, arrays)), "container-argument-modified",
           {"what": "%s(%s of %d arrays, %s)" % (func, type(cont).__name__, len(arrays), kw), "now": [core.brief(x) for x in members]}, sig)
     nontrivial = n >= 2 and (status == "differs" or dimorder_differs or align)
+    if case.get("rehearse"):
+        cl.add("inputs:joined-before-under-other-labels")
     return {"classes": sorted(cl), "nontrivial": nontrivial}
